@@ -59,6 +59,15 @@ func ErrCsvDelayTooLarge(remoteDelay, maxDelay uint16) ReservationError {
 	}
 }
 
+// ErrCsvDelayZero returns an error indicating that a CSV delay of zero was
+// proposed for a channel type whose delayed outputs are unspendable with it.
+func ErrCsvDelayZero() ReservationError {
+	return ReservationError{
+		errors.New("CSV delay of zero is not usable for this " +
+			"channel type"),
+	}
+}
+
 // ErrChanReserveTooSmall returns an error indicating that the channel reserve
 // the remote is requiring is too small to be accepted.
 func ErrChanReserveTooSmall(reserve, dustLimit btcutil.Amount) ReservationError {
